@@ -2865,7 +2865,10 @@ class LinearOperator(object):
                 if _is_tensor_index_moved_to_start(orig_indices):
                     res = res.view(*tensor_index_shape, *res.shape[1:])
                 else:
-                    res = res.view(*res.shape[:-1], *tensor_index_shape)
+                    # the (flattened) tensor-index dimension sits after the slices that precede the first tensor index
+                    first_tensor_loc = [torch.is_tensor(idx) for idx in orig_indices].index(True)
+                    tensor_dim = sum(isinstance(idx, slice) for idx in orig_indices[:first_tensor_loc])
+                    res = res.view(*res.shape[:tensor_dim], *tensor_index_shape, *res.shape[tensor_dim + 1 :])
         else:
             res = self._getitem(row_index, col_index, *batch_indices)
 
